@@ -845,6 +845,36 @@ def l3_gen(seed, families):
         for d in order[1:]:
             (lines if r.below(2) else tent_post).append(d)
         tent_probe.append((tn, expect))
+    # functions are names too: prototypes before and after, definitions after their first use, block-scope declarations,
+    # static / static inline helpers that are reachable only through other helpers (whatever decides which functions are emitted
+    # must follow the chain), each returning its own number plus its callee's
+    fn_post, fn_probe, fn_blockdecl = [], [], []
+    nfn = r.pick([0, 0, 1, 2, 4])
+    fsum = 0
+    for k in range(nfn):
+        fnm = "hf%d_%d" % (seed % 1000, k)
+        attr = r.pick(["", "", "static ", "static inline ", "static inline "])
+        v = val()
+        fsum = v + (fsum if k else 0)
+        callee = "hf%d_%d()" % (seed % 1000, k - 1) if k else "0"
+        definition = "%sint %s(void) { return %d + %s; }" % (attr, fnm, v, callee)
+        proto = "%sint %s(void);" % (attr.replace("inline ", "") if r.below(2) else attr, fnm)
+        where = r.below(3)
+        if k and where == 0:
+            where = 1       # (a callee is defined or declared before its caller: the chain is built bottom-up)
+        if where == 0:
+            lines.append(definition)                 # plain: defined before use
+        elif where == 1:
+            lines.append(proto)                      # declared, defined after main
+            if r.below(2):
+                lines.append(proto)                  # ... twice
+            fn_post.append(definition)
+        else:
+            lines.append(definition)
+            fn_post.append(proto)                    # a redundant declaration after the definition
+        if not attr and r.below(2):
+            fn_blockdecl.append("  int %s(void);" % fnm)
+        fn_probe.append((fnm, fsum))
     labels = set()
     kinds = []      # 'block' or 'for' (a for statement opens two scopes: its declaration and its body)
     decoys = [0]
@@ -949,6 +979,12 @@ def l3_gen(seed, families):
     for tn, expect in tent_probe:
         lines.append("  line = line ? line : ((%s) != %d ? __LINE__ : 0);" % (tn, expect))
         probes += 1
+    lines += fn_blockdecl
+    if fn_probe:
+        # only the top of the chain is called (sometimes one more): everything below must have been emitted for it
+        for fnm, expect in [fn_probe[-1]] + ([r.pick(fn_probe)] if r.below(2) else []):
+            lines.append("  line = line ? line : (%s() != %d ? __LINE__ : 0);" % (fnm, expect))
+            probes += 1
     nops = r.pick([10, 30, 80]) if not big else r.range(400, 1200)
     body(nops)
     for n in (names if not big else r.sample(names, 80)):
@@ -957,7 +993,7 @@ def l3_gen(seed, families):
         close_one()
     lines.append("  return line ? (line %% 250) + 1 : 0;" .replace("%%", "%"))
     lines.append("}")
-    lines += tent_post
+    lines += tent_post + fn_post
     return "\n".join(lines) + "\n", probes, big
 
 
